@@ -2,6 +2,7 @@ package rules
 
 import (
 	"fmt"
+	"go/token"
 	"go/types"
 	"reflect"
 	"sort"
@@ -215,43 +216,41 @@ func c05Key(c *Ctx, sx *symx.Ctx) {
 		var marshalArgOK bool
 		for _, mc := range callsMatching(gk, false, func(n string) bool { return strings.HasPrefix(n, "encoding/json.Marshal") }) {
 			arg := ssau.Strip(mc.Common().Args[0])
-			if u, ok := arg.(*ssa.UnOp); ok {
-				if al, ok := u.X.(*ssa.Alloc); ok {
+			// the marshalled value: a local struct variable, by value or by address
+			var al *ssa.Alloc
+			if u, ok := arg.(*ssa.UnOp); ok && u.Op == token.MUL {
+				al, _ = u.X.(*ssa.Alloc)
+			} else if a, ok := arg.(*ssa.Alloc); ok {
+				al = a
+			}
+			if al != nil {
+				if st, ok := derefT(al.Type()).Underlying().(*types.Struct); ok {
 					hasOpt, hasQ := false, false
-					for _, ref := range *al.Referrers() {
-						if fa, ok := ref.(*ssa.FieldAddr); ok {
-							for _, r2 := range *fa.Referrers() {
-								if st, ok := r2.(*ssa.Store); ok && st.Addr == ssa.Value(fa) {
-									if ssau.ParamOf(st.Val) == gk.Params[2] || st.Val == ssa.Value(gk.Params[2]) {
-										hasOpt = true
-									}
-									lt := &origin.Tracer{Through: func(call *ssa.Call, idx int) []ssa.Value {
-										if n := ssau.CallName(call); n == "strings.ToLower" || n == "strings.TrimSpace" {
-											return call.Common().Args
-										}
-										return nil
-									}}
-									for _, rt := range lt.Roots(st.Val) {
-										if rt.Kind == "param" && strings.HasSuffix(rt.Name, "#1") {
-											hasQ = true
-										}
-									}
-									// or through a normalising helper of the repository
-									if _, root := stringChain(st.Val); root == ssa.Value(gk.Params[1]) {
-										hasQ = true
-									}
+					lt := &origin.Tracer{Through: func(call *ssa.Call, idx int) []ssa.Value {
+						if n := ssau.CallName(call); n == "strings.ToLower" || n == "strings.TrimSpace" {
+							return call.Common().Args
+						}
+						return nil
+					}}
+					for i := 0; i < st.NumFields(); i++ {
+						vals, _ := ssau.FieldSources(al, st.Field(i).Name())
+						tag := reflect.StructTag(st.Tag(i)).Get("json")
+						serialised := st.Field(i).Exported() && strings.Split(tag, ",")[0] != "-"
+						for _, v := range vals {
+							if ssau.ParamOf(v) == gk.Params[2] || v == ssa.Value(gk.Params[2]) {
+								// the options field must be exported and serialised
+								if serialised {
+									hasOpt = true
 								}
 							}
-						}
-					}
-					// the literal's field types: the options field must be exported and serialised
-					if st, ok := derefT(al.Type()).Underlying().(*types.Struct); ok {
-						for i := 0; i < st.NumFields(); i++ {
-							if ssau.NamedOf(st.Field(i).Type()) == cacheOpts {
-								tag := reflect.StructTag(st.Tag(i)).Get("json")
-								if !st.Field(i).Exported() || strings.Split(tag, ",")[0] == "-" {
-									hasOpt = false
+							for _, rt := range lt.Roots(v) {
+								if rt.Kind == "param" && strings.HasSuffix(rt.Name, "#1") && serialised {
+									hasQ = true
 								}
+							}
+							// or through a normalising helper of the repository
+							if _, root := stringChain(v); root == ssa.Value(gk.Params[1]) && serialised {
+								hasQ = true
 							}
 						}
 					}
@@ -557,16 +556,34 @@ func c05Alias(c *Ctx) {
 		good := false
 		for _, call := range callsTo(put, "(*"+cachePkg+".LRUCache).Put") {
 			v := ssau.Strip(call.Common().Args[2])
-			if mk, ok := v.(*ssa.MakeSlice); ok {
+			src := ssa.Value(put.Params[3])
+			switch x := v.(type) {
+			case *ssa.MakeSlice:
 				// copy(mk, results)
 				for _, cp := range callsTo(put, "builtin.copy") {
-					if cp.Common().Args[0] == ssa.Value(mk) && cp.Common().Args[1] == ssa.Value(put.Params[3]) && ssau.Dominates(cp, call) {
+					if cp.Common().Args[0] == ssa.Value(x) && cp.Common().Args[1] == src && ssau.Dominates(cp, call) {
 						good = true
 					}
 				}
+			case *ssa.Call:
+				a := x.Common().Args
+				switch n := ssau.CallName(x); {
+				case n == "builtin.append" && len(a) == 2 && a[1] == src:
+					// append(<fresh empty slice>, results...)
+					switch b := ssau.Strip(a[0]).(type) {
+					case *ssa.MakeSlice:
+						if z, ok := ssau.ConstInt(b.Len); ok && z == 0 {
+							good = true
+						}
+					case *ssa.Const:
+						good = b.IsNil()
+					}
+				case strings.HasPrefix(n, "slices.Clone") && len(a) == 1 && a[0] == src:
+					good = true
+				}
 			}
 		}
-		r.Check(good, "O-5", "cache.(*SearchCache).Put#stores-a-copy", c.P.Pos(put.Pos()), "the LRU receives make+copy of the caller's list", "the caller's slice itself is stored in the cache: later writes by the caller change cached answers")
+		r.Check(good, "O-5", "cache.(*SearchCache).Put#stores-a-copy", c.P.Pos(put.Pos()), "the LRU receives a fresh copy of the caller's list (make+copy, append onto a fresh empty slice, or slices.Clone)", "the caller's slice itself is stored in the cache: later writes by the caller change cached answers")
 	}
 	conv := c.P.Func("internal/database", "", "convertCacheResults")
 	if r.Anchor("O-5", "database.convertCacheResults", conv != nil) {
